@@ -34,7 +34,10 @@ CLAIMED["C06"] = dict(
          "model-independent monitors in the harness (exactly-once accounting, status bits, user_data, caller buffers, drain). "
          "T-route: the loop body of *_ctx_mgr_resubmit and the top-up block of submit of the 23 SIMD-family context files are "
          "regenerated from the source on every run and proved to take the model's decision in every context state "
-         "(which context is handed back with which status, which job is submitted: GenProps/Resubmit.lean, GenProps/TopUp.lean).",
+         "(which context is handed back with which status, which job is submitted: GenProps/Resubmit.lean, GenProps/TopUp.lean); "
+         "likewise the loop body of every *_ctx_mgr_flush_<family> (GenProps/Flush.lean: NULL exactly when the manager's flush "
+         "hands back nothing, otherwise resubmit and return or loop = one unfolding of HashMB.ctxFlush), with the manager callee "
+         "checked to be the one of the file's own algorithm and family.",
     note="Trusted: Lean kernel + standard axioms; harness (differential). Termination of the resubmit/flush loops and the "
          "finite drain (k contexts held => exactly k flushes hand them back, once each) are theorems (C06_total, C06_drain). "
          "user_data / caller buffers are not model state: covered by harness monitors only.",
